@@ -357,8 +357,8 @@ def rule_r7(ctx):
 
 
 def run(ctx):
-    rule_r1(ctx)
-    rule_r2(ctx)
-    rule_r3(ctx)
-    rule_r5(ctx)
-    rule_r7(ctx)
+    ctx.guard(rule_r1)
+    ctx.guard(rule_r2)
+    ctx.guard(rule_r3)
+    ctx.guard(rule_r5)
+    ctx.guard(rule_r7)
